@@ -18,7 +18,9 @@ CLAIMED = {
             "header codec law parse_canonB; the model is compared bit-for-bit with PlotfileCooker's indexing interface on "
             "thousands of (plotfile, field selector, level, box selector) cases per run, and the real results are compared with an "
             "independent oracle. Right level because the quantifier is all layouts x all selector forms.",
-            "Box selection (int/slice/list/mask) and level selection are numpy/Python indexing, checked by the oracle only."),
+            "Box selection (int / slice with any step / index list / boolean mask) and level selection are the Lean model BoxSel.positions / BoxSel.level (C01.box_positions_in_level, box_list_order, box_mask), "
+            "run by the driver on every case and compared with numpy's own indexing and with what the reader returned or refused; C01.selection_refuse_or_exact composes it with the field read into the whole "
+            "pck[fields][level][boxes] statement (each selected box in the order requested, exactly that box's component blocks). numpy's fromfile / reshape(order='F') stay parameters."),
     "C02": ("Lean 4 header/level-header parser models + differential correspondence check",
             "Proof: C02.field_keys_distinct / field_index / field_first_occurrence (the exposed field table: distinct keys, i-th name under index i, "
             "first occurrences keep their name; field_table_distinct: names with positions when distinct), C02.global_header_parse_render / global_header_limit / "
@@ -37,7 +39,9 @@ CLAIMED = {
             "increasing list gives that list), built from the two parse-after-render theorems (global header, level header followed by further lines), Taste.shapeOK_complete (every well-formed binary file is accepted by the byte walk of mp_fun_shape), "
             "headersOK_entry, isLine_canonB, parse_canonB; the whole-plotfile validator model (Taste.tastePlt) is compared with "
             "Taster on every generated well-formed plotfile under all 16 option sets, limits and both modes.",
-            "binary_data and boxes_coordinates compare floats (numpy isclose): outside the Lean model, decided on the real code against the oracle."),
+            "binary_data is the Lean model TasteData.levelOK (sequential scan, rows sorted by offset, np.isclose(equal_nan=True) over the exact values F64.ofBits of the bit patterns): C03.binary_data_accepted, "
+            "compared with the real validator on every well-formed plotfile validated with binary_data and on row edits (both verdicts); boxes_coordinates is TasteCoords (exact rationals). numpy's floating-point evaluation of "
+            "the isclose inequality itself is not modelled (the generated edits stay away from the band's edge)."),
     "C04": ("Lean 4 soundness theorem of the validator walk + corruption sweep as correspondence check",
             "Proof: C04.good_plotfile_layout (WHOLE plotfile: a good default verdict implies the global header parses and in every validated level the directory and level header exist, the level header parses, every named binary file is present, "
             "passes the header check and is a chain header line, payload of the announced size, canonical next header, ..., ending exactly at its end - every listed fault negates a conjunct), missing_level_rejected, "
@@ -51,7 +55,8 @@ CLAIMED = {
             "finite), from Scan.scan_fileOf (the scan of a well-formed file returns the selected block of every FAB exactly once, in disk order, and "
             "stops); level iteration is run under several start orders of the per-file tasks and a real pool, compared as multisets with "
             "the stored boxes and, for single fields, element-wise with the model's scan.",
-            "multiprocessing imap ordering contract assumed; OS scheduling only sampled with real pools."),
+            "multiprocessing imap ordering contract assumed; OS scheduling only sampled with real pools. The on-demand iterator is the selection model BoxSel.positions followed by one read per box (C15.on_demand_order), "
+            "compared with the boxes the real iterator delivers for every selector form."),
     "C20": ("Lean 4 theorem read_inside_header + corruption sweep with read-back",
             "Proof: C20.good_plotfile_entries (whole plotfile: a good default verdict implies that every box listed in every validated level has its binary file and, at its recorded position, a FAB header line naming "
             "exactly its index range with the plotfile's component count), ReaderR.read_inside_header (a recorded offset anywhere inside a FAB's header line whose remaining text still parses reads "
@@ -73,7 +78,8 @@ CLAIMED = {
             "inputs and offset for offset with the model; C06.level_header_rows_assembled (every min/max row of the output level header is the picked columns of the first input's row followed by the picked columns of the second input's row for the same box; "
             "executable line rewriter CellHRewrite.combineLines) and C06.output_header_keeps_mesh / output_header_read_back (the global Header derives from the first input's by the writer model), both compared byte for byte with every written file; "
             "mismatched meshes must be refused before anything is written (API and console script with its exit status).",
-            "The mesh comparison (__eq__) uses numpy allclose on physical bounds: outside the model, exercised on the real code."),
+            "The mesh comparison (__eq__) is the Lean model MeshEq.eq (level limit, box counts, np.allclose of the physical bounds over exact rationals, index ranges): C06.same_mesh_accepted / different_mesh_refused, "
+            "compared with reader1 == reader2 on every generated pair, matched and mismatched; numpy's floating-point evaluation of the allclose inequality itself is not modelled."),
     "C07": ("Lean 4 theorems on the one-pixel column model (exact rationals) + per-pixel correspondence check",
             "Proof: Column.slice_initialised (for every position in the closed domain both samples of a pixel are written before the "
             "pixel is computed, whatever the finer levels hold), Column.slice_affine (affine data is reproduced exactly unless the two "
@@ -108,20 +114,22 @@ CLAIMED = {
             "component compared under its own name with the recipe evaluated independently (Cantera per cell for the built-ins), kept fields "
             "bit for bit, min/max rows with the written extrema, layout offset for offset with the model; C11.output_header_keeps_mesh / output_header_read_back (the global Header chef writes derives from the input's by the writer model Header.rewriteOf, "
             "compared byte for byte, and is read back as the input's mesh metadata); serial and pool modes.",
-            "The recipe is a parameter of the theorem; Cantera and numpy min/max are exercised on the real code only."),
+            "The recipe is a parameter of the theorem; Cantera is exercised on the real code only. The min / max rows chef writes are compared, value for value, with the extrema the Lean model computes from the written bytes "
+            "(TasteData.fabRows over F64.ofBits; C11.extrema_are_true / extrema_nan say what those are); the text of the tokens is Python's formatting."),
     "C17": ("Lean 4 theorem on the record-level chk2plt model + differential correspondence check on synthetic checkpoints",
             "Proof: Writers.chk_data (each output record is box i's interior state components followed by that box's own gradp and I_R "
             "components, for independent layouts of every data subset), the regenerated state-vector tables (state_layout, "
             "output_names_match_state_order), C17.field_names_align / field_count (the field list - state, then gradient, then rates - lines up group by group with the components of chk_data's record; Names.chkFields compared with every written Header); outputs (API and console script, species from a list or a reference plotfile) parsed by the oracle, tasted with box coordinates, compared with the checkpoint's "
             "interior values, and the checkpoint tree is hashed before and after.",
-            "Ghost stripping and flooring are numpy slicing/division, compared on the real output; one known finding (integral time values)."),
+            "Ghost stripping and flooring are numpy slicing/division, compared on the real output; the written min / max rows are compared with the extrema the Lean model computes from the written bytes (C17.extrema_are_true); one known finding (integral time values)."),
     "C18": ("Lean 4 theorem on the two-column table layout + stdout round-trip correspondence check",
             "Proof: MenuR.shown_covers (the repaired two-column table shows every field exactly once, all n) and the pinned counterexample; "
             "C18.extrema_over_all_levels (the all-level entries - reduction of the per-level reductions with numpy's NaN / inf semantics - are the extrema over every box of every level) and nan_is_shown, "
             "on the executable Extrema model whose entries are compared, formatted, with every printed table; "
             "stdout of minuterie and of every menu mode is parsed back and compared with the header tables (oracle) and the layout model; "
             "marinated readers are unpickled and compared with a fresh reader.",
-            "Formatting to 3 significant digits, regular-expression classification and pickle are parameters exercised on the real code."),
+            "Formatting to 3 significant digits and pickle are parameters exercised on the real code. The classification (regular-expression subset of the database, first-match loop with its else branch, case-insensitive sort, species list, units column) is the Lean model MenuClass "
+            "(C18.listing_covers_once), run on the database of the module under test and compared with the printed listings; names outside ASCII and patterns outside the subset are left to the oracle."),
     "C19": ("Lean 4 theorems on point-to-index conversion + executable matching model as correspondence check",
             "Proof: C19.query_interior_centre (FULL statement on the model: at the centre of a cell c of box B of level L, one cell away from B's faces, the other boxes of the level separated from B "
             "along some axis and no finer box touching the cell, Point.query - the model of LevelDataSelector.__call__ up to the interpolation call - takes the single-box branch for (L, B) with local index c - lo(B); "
@@ -136,7 +144,7 @@ CLAIMED = {
             "(mandolineHeader_eq_utilsHeader, without which taste rejects the slice) and threshold; every cell of every written box is compared "
             "with the Python specification and the Lean column model, the listed boxes with the footprints the plane meets, outputs are tasted "
             "with box coordinates, incl. a slice above the one-megabyte threshold.",
-            "The 2D Header is the executable writer model Header.slice2D applied to the reader model's parse of the 3D input header (C16.slice_header_content: two dimensions, the input's time, in-plane bounds / cell sizes / grid sizes, per level the in-plane bounds of the selected boxes; slice_header_read_back), compared byte for byte with every written Header; Python's str(float) is a parameter of that model; interpolated values at rtol 1e-9."),
+            "The 2D Header is the executable writer model Header.slice2D applied to the reader model's parse of the 3D input header (C16.slice_header_content: two dimensions, the input's time, in-plane bounds / cell sizes / grid sizes, per level the in-plane bounds of the selected boxes; slice_header_read_back), compared byte for byte with every written Header; Python's str(float) is a parameter of that model; interpolated values at rtol 1e-9; the written min / max rows are compared with the extrema the Lean model computes from the written bytes (C16.extrema_are_true)."),
     "C12": ("Lean 4 theorems on interleavings of tasks with disjoint path sets + exhaustive order exploration with a controlled pool",
             "Proof: C12.any_interleaving / interleavings_agree (Sched.mergeAll_run), task_outputs_distinct (per-file output paths are injective in the basename), "
             "unordered_results (any arrival order of disjoint writes), unordered_delivery_only_in_whip (regenerated from the sources); Sched.merge_run and Sched.mergeAll_run (any interleaving of any number of tasks touching pairwise disjoint paths ends in the "
